@@ -32,8 +32,9 @@ Record srv_params := { sp_salt : bytes; sp_iter : N; sp_server_key : bytes; sp_o
 
 (* what the server knows: client-first-message-bare and client nonce of the last client-first it received,
    the last server-first it sent, the last client-final-message-without-proof it received *)
-Record srv_view := { v_bare : bytes; v_cn : bytes; v_sfirst : bytes; v_cfwp : bytes }.
-Definition view0 : srv_view := {| v_bare := []; v_cn := []; v_sfirst := []; v_cfwp := [] |}.
+Record srv_view := { v_bare : bytes; v_cn : bytes; v_sfirst : bytes; v_cfwp : bytes;
+                     v_lastfinal : bytes (* the last valid server-final (symbol 3) sent in this dialogue *) }.
+Definition view0 : srv_view := {| v_bare := []; v_cn := []; v_sfirst := []; v_cfwp := []; v_lastfinal := [] |}.
 
 (* the part of [s] after the first occurrence of ",," (gs2 header end) *)
 Fixpoint after_gs2 (s : bytes) : option bytes :=
@@ -51,17 +52,21 @@ Definition see_line (v : srv_view) (line64 : bytes) : srv_view :=
   | Some m =>
       if is_prefix (bs "n,,") m || is_prefix (bs "p=") m then
         match after_gs2 m with
-        | Some bare => {| v_bare := bare; v_cn := skipn 2 (last_part bare); v_sfirst := v_sfirst v; v_cfwp := v_cfwp v |}
+        | Some bare => {| v_bare := bare; v_cn := skipn 2 (last_part bare); v_sfirst := v_sfirst v; v_cfwp := v_cfwp v;
+                          v_lastfinal := v_lastfinal v |}
         | None => v
         end
       else if is_prefix (bs "c=") m then
         {| v_bare := v_bare v; v_cn := v_cn v; v_sfirst := v_sfirst v;
-           v_cfwp := join [44] (removelast (split_on 44 m)) |}
+           v_cfwp := join [44] (removelast (split_on 44 m)); v_lastfinal := v_lastfinal v |}
       else v
   end.
 
 Definition sent_first (v : srv_view) (m : bytes) : srv_view :=
-  {| v_bare := v_bare v; v_cn := v_cn v; v_sfirst := m; v_cfwp := v_cfwp v |}.
+  {| v_bare := v_bare v; v_cn := v_cn v; v_sfirst := m; v_cfwp := v_cfwp v; v_lastfinal := v_lastfinal v |}.
+
+Definition sent_final (v : srv_view) (m : bytes) : srv_view :=
+  {| v_bare := v_bare v; v_cn := v_cn v; v_sfirst := v_sfirst v; v_cfwp := v_cfwp v; v_lastfinal := m |}.
 
 Definition srv_sig (v256 : bool) (key : bytes) (v : srv_view) : bytes :=
   bs "v=" ++ b64enc (hmac_of v256 key (v_bare v ++ bs "," ++ v_sfirst v ++ bs "," ++ v_cfwp v)).
@@ -76,13 +81,14 @@ Definition concretize (v256 : bool) (p : srv_params) (prev : bytes) (sym : N) (v
   | 0 => let m := bs "r=" ++ v_cn v ++ sp_nonce p ++ tail in (chal m, sent_first v m)
   | 1 => let m := bs "r=" ++ removelast (v_cn v) ++ bs "~" ++ sp_nonce p ++ tail in (chal m, sent_first v m)
   | 2 => let m := bs "r=" ++ v_cn v ++ sp_nonce p ++ bs ",s=!!!,i=" ++ dec_of_N (sp_iter p) in (chal m, sent_first v m)
-  | 3 => (chal (srv_sig v256 (sp_server_key p) v), v)
+  | 3 => let m := srv_sig v256 (sp_server_key p) v in (chal m, sent_final v m)
   | 4 => (chal (srv_sig v256 (sp_other_key p) v), v)
   | 5 => (chal (bs "v=" ++ b64enc (hmac_of v256 (sp_empty_key p) [])), v)
   | 6 => (Reply 334 [], v)
   | 7 => (chal (bs "x=junk"), v)
   | 8 => (Reply 235 (bs "2.7.0 ok"), v)
   | 9 => (Reply 535 (bs "5.7.8 no"), v)
+  | 11 => (chal (v_lastfinal v), v)     (* the valid server-final of an EARLIER exchange of this dialogue, resent *)
   | _ => (chal prev, v)
   end.
 
@@ -194,7 +200,8 @@ Definition run_auth (cfg : scram_cfg) (d : mech_desc) (lad : bool) (script : lis
 Definition gen_cfg : scram_cfg :=
   {| start_resets := Gen.scram_start_resets;
      final_requires_first := Gen.scram_final_requires_first;
-     done_requires_verified := Gen.scram_done_requires_verified |}.
+     done_requires_verified := Gen.scram_done_requires_verified;
+     restart_resets := Gen.scram_restart_resets |}.
 
 (* the two records of a command issued after Auth returned (C16: the harness sends NOOP) *)
 Definition post_records (o : run_obs) (line : bytes) (r : reply) : list bytes :=
